@@ -14,6 +14,7 @@ new(final params) would store.  Decided per struct:
 import re
 from ..ir import tag, show, short, subterms, is_panic_path, is_f64_method
 from ..structs import StructModel, strip_sites, unname, mentions, canon_guard, show_guard, subst
+from ..objstate import ObjModel, gmap, gterms
 from ..framework import site_of
 
 LEVEL = 'other'
@@ -66,57 +67,58 @@ def run(prog, rep, tier, repo):
                 deps |= {x[1] for x in extra}
             if deps:
                 derived[i] = deps
-        # every constructor argument initialises a field by identity or only feeds derived fields
+        om = ObjModel(prog, sm)
         # -------------------------------------------------------------- setters
-        setter_of_field = {}
         for st in sm.setters:
             sk = st.body.key
             rep.touch(sk)
             n_setters += 1
-            w = sm.writes(st)
-            written_params = {}
-            for fi, stores in w.items():
-                if fi in param_fields:
-                    for s in stores:
-                        if tag(s.value) == 'arg':
-                            written_params[fi] = s.value
-            for fi in written_params:
-                setter_of_field.setdefault(fi, []).append(st)
-            # D1 cache coherence
-            for ci, deps in derived.items():
-                touched = [fi for fi in written_params if param_fields[fi] in deps]
-                if not touched:
+            eff = om.effect(st)
+            for hk in eff.bodies:
+                rep.touch(hk)
+            me = ('arg', 1, st.names.get(1))
+            W = [fi for fi in eff.state if fi in param_fields]
+            if eff.undec:
+                for fi in (W or ['?']):
+                    rep.undecided('setter-agree', 'setter-agree:%s:%s' % (sk, sm.fname(fi) if fi != '?' else '?'),
+                                  'effect of %s not read: %s' % (short(sk), eff.undec), site_of(st.body), proof=False)
+                for ci, deps in derived.items():
+                    if any(param_fields[fi] in deps for fi in W):
+                        rep.undecided('cache-coherent', 'cache-coherent:%s:%s' % (sk, sm.fname(ci)),
+                                      'effect of %s not read: %s' % (short(sk), eff.undec), site_of(st.body), proof=False)
+                continue
+            if not W:
+                # a mutator that writes no parameter: every field it writes must still hold what new() stores
+                pass
+            exp, mapping = om.expected(me, eff.state)
+            # D1 cache coherence / D1' no field drifts away from its constructor value
+            for ci in sorted(set(derived) | (set(eff.state) - set(param_fields))):
+                deps = derived.get(ci, set())
+                touched = [fi for fi in W if param_fields[fi] in deps]
+                got = eff.state.get(ci)
+                if got is None and not touched:
                     continue
                 key = 'cache-coherent:%s:%s' % (sk, sm.fname(ci))
-                want = unname(strip_sites(sm.translate_new_term(sm.inits[ci], st, written_params)))
-                got = [unname(strip_sites(s.value)) for s in w.get(ci, [])]
-                # the write must happen on every path that performs the parameter write
-                if not got:
+                want = om.clean(exp[ci])
+                if got is None:
                     rep.viol('cache-coherent', key, '%s writes %s but leaves the derived field `%s` (initialised in new as %s) '
                              'unchanged: the object differs from a freshly constructed twin' % (
                                  short(sk), ', '.join(sm.fname(f) for f in touched), sm.fname(ci), show(sm.inits[ci])), site_of(st.body))
-                elif all(g == want for g in got) and _dominates_exit(st, w[ci]):
-                    rep.ok('cache-coherent', key, '`%s` rebuilt as %s' % (sm.fname(ci), show(got[0])))
-                elif all(g == want for g in got):
-                    rep.viol('cache-coherent', key, '`%s` is rebuilt only on some paths of %s' % (sm.fname(ci), short(sk)), site_of(st.body))
+                elif om.clean(got) == want:
+                    rep.ok('cache-coherent', key, '`%s` rebuilt as %s' % (sm.fname(ci), show(got)[:80]))
+                elif ci not in derived:
+                    rep.viol('cache-coherent', key, '%s overwrites `%s` with %s, but new() initialises it as %s' % (
+                        short(sk), sm.fname(ci), show(got)[:80], show(exp[ci])[:80]), site_of(st.body))
                 else:
                     rep.viol('cache-coherent', key, '`%s` is rebuilt as %s but new() initialises it as %s' % (
-                        sm.fname(ci), show(got[0]), show(want)), site_of(st.body))
+                        sm.fname(ci), show(got)[:80], show(exp[ci])[:80]), site_of(st.body))
             # D2 validation agreement
-            for fi, argt in written_params.items():
+            for fi in W:
                 key = 'setter-agree:%s:%s' % (sk, sm.fname(fi))
                 na = sm.new_arg(param_fields[fi])
-                want = set()
-                for g in sm.new_guards:
-                    gt = g[2:4] if g[0] == 'cmp' else (g[1],)
-                    if any(mentions(x, na) for x in gt):
-                        want.add(_guard_map(g, lambda t: unname(strip_sites(sm.translate_new_term(t, st, written_params)))))
-                got = set()
-                store_bb = w[fi][0].bb
-                for g in sm.guards_at(st, store_bb):
-                    gt = g[2:4] if g[0] == 'cmp' else (g[1],)
-                    if any(mentions(x, argt) for x in gt):
-                        got.add(_guard_map(g, lambda t: unname(strip_sites(t))))
+                v = eff.state[fi]
+                want = {om.clean(gmap(g, lambda t: subst(t, mapping))) for g in om.new_guards if any(mentions(x, na) for x in gterms(g))}
+                got = {om.clean(g) for g in eff.guards if any(mentions(x, v) for x in gterms(g))}
                 if want == got:
                     rep.ok('setter-agree', key, 'validates like new: {%s}' % '; '.join(sorted(show_guard(g) for g in got)) if got else 'unconstrained in new and in the setter')
                 else:
@@ -126,12 +128,6 @@ def run(prog, rep, tier, repo):
                         short(sk), '; '.join(sorted(show_guard(g) for g in got)), '; '.join(sorted(show_guard(g) for g in want)),
                         (' — missing: ' + '; '.join(show_guard(g) for g in missing)) if missing else '',
                         (' — stricter: ' + '; '.join(show_guard(g) for g in extra)) if extra else ''), site_of(st.body))
-            # setters must not write anything that is not a parameter or a derived field rebuild
-            for fi, stores in w.items():
-                if fi not in param_fields and fi not in derived:
-                    rep.viol('cache-coherent', 'cache-coherent:%s:%s' % (sk, sm.fname(fi)),
-                             '%s overwrites `%s`, which new() initialises independently of the parameters' % (short(sk), sm.fname(fi)), site_of(st.body))
-        # every parameter field has a setter? (not required by the property) -> info only
         # -------------------------------------------------------------- update
         uk = '<%s as distributions::Distribution1D>::update' % path
         uf = prog.func(uk)
@@ -139,7 +135,7 @@ def run(prog, rep, tier, repo):
             rep.viol('update', 'update:%s' % path, 'Distribution1D::update impl disappeared')
         else:
             rep.touch(uk)
-            _check_update(prog, rep, sm, uf, param_fields, derived)
+            _check_update(prog, rep, sm, om, uf, param_fields, derived)
         # -------------------------------------------------------------- D4
         key = 'observers:%s' % path
         adt = sm.adt
@@ -215,75 +211,51 @@ def _guard_map(g, f):
     return ('cond', f(g[1]), g[2])
 
 
-def _dominates_exit(f, stores):
-    """some store in `stores` lies on every path to a return"""
-    cfg = f.cfg
-    for r in cfg.returns:
-        if not any(cfg.dominates(s.bb, r) for s in stores):
-            return False
-    return True
-
-
-def _check_update(prog, rep, sm, uf, param_fields, derived):
+def _check_update(prog, rep, sm, om, uf, param_fields, derived):
+    """update(params) must leave the object equal to new(p..) for the parameter values it stores: every parameter field is written,
+    every other field holds the constructor's initialiser for those values, and update returns normally exactly under the
+    constructor's guards on those values (a guard that still reads a field of the old object is validation against stale state)"""
     path = sm.path
-    uk = uf.body.key
     key = 'update:%s' % path
-    calls = [c for c in uf.calls() if c.path in prog.pdb.bodies]
-    order = sorted(calls, key=lambda c: uf.cfg.rpo().index(c.bb))
-    written = []
-    seq = []
-    for c in order:
-        if c.path == path + '::new':
-            # *self = Self::new(..): trivially equal to a fresh twin
-            st = [s for s in uf.stores() if tag(s.target) == 'arg' and s.target[1] == 1]
-            whole = any(s.value == c.term and False for s in st)
-            written = list(param_fields)
-            seq.append(('new', c))
-            continue
-        g = prog.func(c.path)
-        if g.body.impl and g.body.impl['self_ty'] == path and g.body.impl['trait'] is None:
-            w = sm.writes(g)
-            fields = [fi for fi in w if fi in param_fields]
-            seq.append(('setter', c, g, fields))
-            written += fields
-    direct = sm.writes(uf)
-    for fi in direct:
-        if fi in param_fields or fi in derived:
-            rep.viol('update', key + ':direct-write', 'update() assigns `%s` directly, bypassing validation/cache rebuild' % sm.fname(fi), site_of(uf.body))
-    if any(k == 'new' for k, *_ in seq):
-        # accept `*self = Self::new(a, b)` only if the result is stored to *self
-        ok = any(tag(s.target) == 'arg' and s.target[1] == 1 and tag(s.value) == 'call' and s.value[1] == path + '::new' for s in uf.stores())
-        if ok:
-            rep.ok('update', key, 'update() replaces *self by Self::new(..): identical to a fresh twin by construction')
-        else:
-            rep.undecided('update', key, 'update() calls new() but does not assign the result to *self', site_of(uf.body))
+    eff = om.effect(uf)
+    for hk in eff.bodies:
+        rep.touch(hk)
+    if eff.undec:
+        rep.undecided('update', key, 'effect of update() not read: %s' % eff.undec, site_of(uf.body), proof=False)
         return
-    missing = [sm.fname(fi) for fi in param_fields if fi not in written]
+    me = ('arg', 1, uf.names.get(1))
+    missing = [sm.fname(fi) for fi in param_fields if fi not in eff.state]
     if missing:
         rep.viol('update', key, 'update() never writes parameter field(s) %s' % missing, site_of(uf.body))
         return
-    # stale-sibling validation: setter A reads field g in a guard, a later setter writes g
+    exp, mapping = om.expected(me, eff.state)
     problems = []
-    for i, item in enumerate(seq):
-        if item[0] != 'setter':
-            continue
-        _, c, g, fields = item
-        reads = set()
-        for s in g.stores():
-            pass
-        for bb, gl in g.guards().items():
-            for cnd, v in gl:
-                for x in subterms(cnd):
-                    if tag(x) == 'field' and tag(x[1]) == 'arg' and x[1][1] == 1:
-                        reads.add(x[2])
-        for later in seq[i + 1:]:
-            if later[0] == 'setter':
-                both = [f for f in later[3] if f in reads and f not in fields]
-                for f in both:
-                    problems.append((short(c.path), sm.fname(f), short(later[1].path)))
+    for ci in sorted(set(exp) - set(param_fields)):
+        got = eff.state.get(ci)
+        depends = ci in derived
+        if got is None:
+            if depends:
+                problems.append('the derived field `%s` is not rebuilt' % sm.fname(ci))
+        elif om.clean(got) != om.clean(exp[ci]):
+            problems.append('`%s` is left as %s where new() stores %s' % (sm.fname(ci), show(got)[:60], show(exp[ci])[:60]))
+    vals = [eff.state[fi] for fi in param_fields]
+
+    def relevant(g):
+        ts = gterms(g)
+        return any(mentions(x, v) for x in ts for v in vals) or any(tag(z) == 'field' and z[1] == me for x in ts for z in subterms(x))
+    want = {om.clean(gmap(g, lambda t: subst(t, mapping))) for g in om.new_guards}
+    got = {om.clean(g) for g in eff.guards if relevant(g)}
+    stale = [g for g in got - want if any(tag(z) == 'field' and tag(z[1]) == 'arg' and z[1][1] == 1 for x in gterms(g) for z in subterms(x))]
+    if stale:
+        problems.append('a new value is validated against a field of the object as it was before the update ({%s}): a valid parameter set can be '
+                        'rejected depending on the previous parameters' % '; '.join(show_guard(g) for g in stale))
+    elif want - got:
+        problems.append('update() does not enforce {%s}, which new() requires' % '; '.join(sorted(show_guard(g) for g in want - got)))
+    elif got - want:
+        problems.append('update() additionally rejects through {%s}' % '; '.join(sorted(show_guard(g) for g in got - want)))
     if problems:
-        a, fld, b = problems[0]
-        rep.viol('update', key, 'update() calls %s, which validates the new value against the *old* `%s`, before %s overwrites `%s`: '
-                 'a valid parameter pair can be rejected depending on the previous parameters' % (a, fld, b, fld), site_of(uf.body))
+        rep.viol('update', key, '; '.join(problems), site_of(uf.body))
     else:
-        rep.ok('update', key, 'update() routes %s through %s' % ([sm.fname(f) for f in param_fields], [short(x[1].path) for x in seq]))
+        rep.ok('update', key, 'update() stores %s, every other field as new() would, under the guards of new(): {%s}' % (
+            ', '.join('%s := %s' % (sm.fname(fi), show(eff.state[fi])[:30]) for fi in param_fields),
+            '; '.join(sorted(show_guard(g) for g in got)) or 'none'))
